@@ -50,7 +50,11 @@ pub uninterp spec fn ldk_sign_cp_commitment(keys: InMemorySigner, tx: Commitment
 
 pub uninterp spec fn ldk_pubkeys(keys: InMemorySigner) -> ChannelPublicKeys;
 pub uninterp spec fn ldk_counterparty_pubkeys(keys: InMemorySigner) -> Option<ChannelPublicKeys>;
+pub uninterp spec fn ldk_funding_key(keys: InMemorySigner) -> SecretKey;
 impl InMemorySigner {
+    // the pub field `funding_key`
+    #[verifier::external_body]
+    pub fn vx_funding_key(&self) -> (r: &SecretKey) ensures *r == ldk_funding_key(*self) { unimplemented!() }
     #[verifier::external_body]
     pub fn pubkeys(&self) -> (r: &ChannelPublicKeys) ensures *r == ldk_pubkeys(*self) { unimplemented!() }
     #[verifier::external_body]
